@@ -413,7 +413,9 @@ def forward_signatures(func, calls, args, kwargs, sig):
         try:
             wrapped_sig = forged_signature(
                 wrapped_func, args=fwdargsvals, kwargs=fwdkwargsvals)
-        except (ValueError, TypeError):
+        except Exception:
+            # ValueError, TypeError: no signature; anything else: eg. a proxy
+            # object whose attribute access fails outside of its context
             raise UnknownForwards
         try:
             ausig = _signatures.forwards(
